@@ -120,8 +120,10 @@ let handle line =
        let tf = match strip_prefix "tf=" tf with Some x -> x | None -> "" in
        builder_case ~timed id ops tf
      | "CASE" :: "BP" :: id :: _, [a; b] -> print_endline line; pair_case id a b
-     | "CASE" :: _ :: _ :: fam :: _, _ when String.length fam >= 5 && String.sub fam 0 5 = "tokio" ->
-       ()   (* run inside a real tokio runtime (cooperative budget): monitors only, not modelled *)
+     | "CASE" :: _ :: _ :: fam :: _, _ when (String.length fam >= 5 && String.sub fam 0 5 = "tokio")
+                                          || (String.length fam >= 3 && String.sub fam 0 3 = "nm-") ->
+       ()   (* `tokio*`: run inside a real tokio runtime (cooperative budget); `nm-*`: user futures that wake
+               themselves (FuturesUnordered's yield rule is not modelled): monitors only, not modelled *)
      | "CASE" :: kind :: id :: _, _ ->
        print_endline line;
        (try Runtime_driver.handle kind id hd_t rest
